@@ -1662,7 +1662,7 @@ def ts(t, ev=None, depth=0):
     if h == "rest":
         return f"{f(t[1])}[{t[2]}:]"
     if h == "star":
-        return "*" + f(t[1])
+        return "*" + (f(t[1]) if len(t) > 1 else "")
     if h == "call":
         parts = [f(a) for a in t[2]] + [(f"{k}={f(v)}" if k is not None else f"**{f(v)}") for k, v in t[3]]
         return f"{f(t[1])}({', '.join(parts)})"
@@ -1673,7 +1673,7 @@ def ts(t, ev=None, depth=0):
     if h == "set":
         return "{" + ", ".join(f(x) for x in t[1]) + "}"
     if h == "dict":
-        return "{" + ", ".join(f"{f(k)}: {f(v)}" for k, v in t[1]) + "}"
+        return "{" + ", ".join((f"**{f(v)}" if k == ("star",) else f"{f(k)}: {f(v)}") for k, v in t[1]) + "}"
     if h == "binop":
         return f"({f(t[2])} {t[1]} {f(t[3])})"
     if h == "unop":
